@@ -2,6 +2,7 @@ import IGVerif.Gen.Facts
 import IGVerif.Spec.Symbols
 import IGVerif.Spec.Shape
 import IGVerif.Model.Tab
+import IGVerif.Model.Link
 import IGVerif.Model.Vis
 import IGVerif.Model.Dov
 /-! Obligations that tie hand-written model tables to facts regenerated from /repo (shared by
@@ -83,5 +84,25 @@ theorem dov_helpers :
       "sum += arr[i]", "if sum > defaultValue", "return sum", "return defaultValue"] ∧
     Gen.helper_FindMaxValue = ["max := 0", "for i < len(arr)", "i := 0", "if arr[i] > max", "max += arr[i]",
       "if max > defaultValue", "return max", "return defaultValue"] := by decide
+
+def const (name : String) : String := ((Gen.treeConsts.find? (fun p => p.1 = name)).map (·.2)).getD "?"
+
+/-- the literal strings the models use are the constants of the code -/
+theorem model_constants :
+    String.ofList opAND = const "AND" ∧ String.ofList opOR = const "OR" ∧ String.ofList opXOR = const "XOR" ∧
+    String.ofList opBAND = const "SAND_BETWEEN_COMPONENTS" ∧ String.ofList opWAND = const "SAND_WITHIN_COMPONENTS" ∧
+    String.ofList Tab.refSuffix = const "REF_SUFFIX" ∧ String.ofList Tab.annSuffix = const "ANNOTATION" ∧
+    String.ofList Tab.kStmtAnn = const "STATEMENT_ANNOTATION" := by decide
+
+/-- adjacent operators are merged for exactly the conjunction class {AND, bAND, wAND} at every
+    site that builds a linkage cell (component level and both statement levels) -/
+theorem collapse_sites :
+    Gen.collapseCallSites.map (·.2) =
+      List.replicate 3 "[]string{tree.AND, tree.SAND_BETWEEN_COMPONENTS, tree.SAND_WITHIN_COMPONENTS}" ∧
+    Gen.collapseCallSites.map (·.1) =
+      ["generateLogicalLinksExpressionForStatements", "generateLogicalLinkageForExtrapolatedStatements",
+       "generateLogicalLinksExpressionForGivenComponentValue"] ∧
+    (Link.collapsible opAND && Link.collapsible opBAND && Link.collapsible opWAND && !Link.collapsible opOR && !Link.collapsible opXOR) = true := by
+  decide
 
 end IGVerif.Ties
